@@ -12,6 +12,7 @@ import (
 	"errors"
 	"fmt"
 	"runtime"
+	"sort"
 	"testing"
 	"time"
 
@@ -67,7 +68,9 @@ func TestVerif_C19_ctor(t *testing.T) {
 	defer sink.Close()
 	const src = cciptypes.ChainSelector(16015286601757825753)
 	perms := [][3]int{{30, 90, 270}, {30, 270, 90}, {90, 30, 270}, {90, 270, 30}, {270, 30, 90}, {270, 90, 30}}
-	ms := func(v int) *commonconfig.Duration { return commonconfig.MustNewDuration(time.Duration(v) * time.Millisecond) }
+	ms := func(v int) *commonconfig.Duration {
+		return commonconfig.MustNewDuration(time.Duration(v) * time.Millisecond)
+	}
 	for i := 0; i < n; i++ {
 		w := []int{0, 1, 4, 2}[i%4]
 		p := perms[(i/4+r.Intn(6))%6]
@@ -104,20 +107,36 @@ func TestVerif_C19_ctor(t *testing.T) {
 			workers = bg.numWorkers
 			expiry = int(bg.cachedTokenData.expirationInterval / time.Millisecond)
 			timeout = int(bg.observeTimeout / time.Millisecond)
-			for time.Since(t0) < 700*time.Millisecond {
-				if bg.cachedTokenData.size() == 0 {
-					el := time.Since(t0)
-					switch {
-					case el < 60*time.Millisecond:
-						cleanup = 30
-					case el < 180*time.Millisecond:
-						cleanup = 90
-					default:
-						cleanup = 270
+			// The cleanup interval is not stored anywhere: it is measured as the MEDIAN distance between four consecutive
+			// cleanup ticks (an already expired entry disappears at the next tick). Distances between ticks do not depend on
+			// how long construction took, and the median of three tolerates one tick delayed by a loaded machine (the first
+			// version classified the absolute time of the first tick and raised a false alarm under load).
+			_ = t0
+			var stamps []time.Time
+			for k := 0; k < 4; k++ {
+				bg.cachedTokenData.set(id, exectypes.MessageTokenData{})
+				bg.cachedTokenData.mu.Lock()
+				bg.cachedTokenData.expiresAt[id] = time.Now().Add(-time.Second)
+				bg.cachedTokenData.mu.Unlock()
+				for end := time.Now().Add(1500 * time.Millisecond); time.Now().Before(end); {
+					if bg.cachedTokenData.size() == 0 {
+						stamps = append(stamps, time.Now())
+						break
 					}
-					break
+					time.Sleep(200 * time.Microsecond)
 				}
-				time.Sleep(500 * time.Microsecond)
+			}
+			if len(stamps) == 4 {
+				d := []time.Duration{stamps[1].Sub(stamps[0]), stamps[2].Sub(stamps[1]), stamps[3].Sub(stamps[2])}
+				sort.Slice(d, func(a, b int) bool { return d[a] < d[b] })
+				switch med := d[1]; {
+				case med < 52*time.Millisecond:
+					cleanup = 30
+				case med < 156*time.Millisecond:
+					cleanup = 90
+				default:
+					cleanup = 270
+				}
 			}
 		} else {
 			started = vC19GoroutinesAbove(base, 2*time.Millisecond)
